@@ -1,3 +1,232 @@
-//! C06 — not built yet.
+//! C06 — data-driven constructs expand exactly.
+//!
+//! (1) property check on the implementation itself: generated data-driven programs `p` and their
+//!     hand-unrolled text `unroll p` (independent reference unroller, `pre_unroll.rs`) must compile to
+//!     the same `Model` (same constraints in the same order with the same names, same variable set,
+//!     domains and usage counts) and, after `Linearizer::linearize`, to the same `LinearModel`;
+//! (2) correspondence with the Lean model `Rooc/Pre/Expand.lean`: aggregation folds of `into_exp`
+//!     (through small programs whose data is literal), `range`, `enumerate`, `zip`, set functions,
+//!     `flatten_variable_name`.
 use crate::case::Case;
-pub fn generate(_seed: u64, _n: usize, _thorough: bool, _corpus: Option<&str>) -> Vec<Case> { vec![] }
+use crate::pre_gen::*;
+use crate::pre_unroll::{unroll, UErr};
+use crate::rng::Rng;
+use crate::sx;
+use indexmap::IndexMap;
+use rooc::model_transformer::{Exp, Model, TransformError};
+use rooc::{Linearizer, RoocParser};
+use std::panic::{catch_unwind, AssertUnwindSafe};
+
+pub fn variant_name(e: &TransformError) -> String {
+    let d = format!("{:?}", e.base_error());
+    d.split(|c: char| !c.is_alphanumeric()).next().unwrap_or("").to_string()
+}
+
+pub enum Compiled { Ok(Model), ParseErr(String), TransErr(String), Panic(String) }
+
+pub fn compile(src: &str) -> Compiled {
+    let r = catch_unwind(AssertUnwindSafe(|| {
+        let p = RoocParser::new(src.to_string());
+        match p.parse() {
+            Err(e) => Compiled::ParseErr(e.to_string_from_source(src)),
+            Ok(pre) => match pre.transform(vec![], &IndexMap::new()) {
+                Ok(m) => Compiled::Ok(m),
+                Err(e) => Compiled::TransErr(variant_name(&e)),
+            },
+        }
+    }));
+    r.unwrap_or_else(|p| Compiled::Panic(crate::pre_worker::panic_text(&p)))
+}
+
+fn close(a: f64, b: f64) -> bool { a == b || (a - b).abs() <= 1e-9 * a.abs().max(b.abs()).max(1.0) || (a.is_nan() && b.is_nan()) }
+fn vt_close(a: &rooc::VariableType, b: &rooc::VariableType) -> bool {
+    use rooc::VariableType::*;
+    match (a, b) {
+        (Boolean, Boolean) => true,
+        (IntegerRange(a1, a2), IntegerRange(b1, b2)) => a1 == b1 && a2 == b2,
+        (Real(a1, a2), Real(b1, b2)) | (NonNegativeReal(a1, a2), NonNegativeReal(b1, b2)) => close(*a1, *b1) && close(*a2, *b2),
+        _ => false,
+    }
+}
+/// same linear model: names, order, variable set, domains, usage counts; numbers up to 1e-9 relative
+/// (the unrolled text writes sums flat, so sums of coefficients may associate differently)
+fn lin_close(a: &rooc::LinearModel, b: &rooc::LinearModel) -> bool {
+    let v = |x: &[f64], y: &[f64]| x.len() == y.len() && x.iter().zip(y).all(|(p, q)| close(*p, *q));
+    sx::opt_type(a.optimization_type()) == sx::opt_type(b.optimization_type())
+        && a.variables() == b.variables() && v(a.objective(), b.objective()) && close(a.objective_offset(), b.objective_offset())
+        && a.domain().len() == b.domain().len()
+        && a.domain().iter().zip(b.domain()).all(|((n1, d1), (n2, d2))| n1 == n2 && vt_close(d1.get_type(), d2.get_type()) && d1.usage_count() == d2.usage_count())
+        && a.constraints().len() == b.constraints().len()
+        && a.constraints().iter().zip(b.constraints()).all(|(r1, r2)| r1.name() == r2.name() && sx::cmp(*r1.constraint_type()) == sx::cmp(*r2.constraint_type())
+            && v(r1.coefficients(), r2.coefficients()) && close(r1.rhs(), r2.rhs()))
+}
+enum Lin { Ok(rooc::LinearModel), Other(String) }
+fn lin2(m: Model) -> Lin {
+    match catch_unwind(AssertUnwindSafe(|| Linearizer::linearize(m))) {
+        Ok(Ok(l)) => Lin::Ok(l),
+        Ok(Err(e)) => { let d = format!("{:?}", e); Lin::Other(format!("(err {})", d.split(|c: char| !c.is_alphanumeric()).next().unwrap_or(""))) }
+        Err(p) => Lin::Other(format!("(panic {})", sx::q(&crate::pre_worker::panic_text(&p)))),
+    }
+}
+#[allow(dead_code)]
+fn lin(m: Model) -> String {
+    match catch_unwind(AssertUnwindSafe(|| Linearizer::linearize(m))) {
+        Ok(Ok(l)) => format!("(ok {})", sx::lin_model(&l)),
+        Ok(Err(e)) => { let d = format!("{:?}", e); format!("(err {})", d.split(|c: char| !c.is_alphanumeric()).next().unwrap_or("")) }
+        Err(p) => format!("(panic {})", sx::q(&crate::pre_worker::panic_text(&p))),
+    }
+}
+
+/// the property check on one program
+pub fn check_program(p: &Prog, tags: Vec<String>, stream: &str) -> Case {
+    let src = print_prog(p);
+    if std::env::var("PRE_DEBUG").is_ok() { eprintln!("=== program\n{}", src); }
+    let mut c = Case::default();
+    c.tags = tags;
+    c.tags.push(format!("stream:{}", stream));
+    c.show = src.clone();
+    let orig = compile(&src);
+    match unroll(p) {
+        Err(UErr::NoText(why)) => {
+            c.tags.push(format!("no-text:{}", why));
+            c.imp = match orig { Compiled::Ok(_) => "(ok)".into(), Compiled::Panic(m) => { c.impl_violation = Some(format!("panic: {}", m)); c.sig = Some("panic".into()); "(panic)".into() } _ => "(err)".into() };
+        }
+        Err(UErr::Reject(why)) => {
+            c.tags.push("reference-rejects".into());
+            match orig {
+                Compiled::Ok(_) => { c.impl_violation = Some(format!("the reference semantics rejects the program ({}) but it compiles", why)); c.sig = Some("accepted-but-reference-rejects".into()); }
+                Compiled::Panic(m) => { c.impl_violation = Some(format!("panic: {}", m)); c.sig = Some("panic".into()); }
+                Compiled::TransErr(v) => { c.tags.push(format!("both-reject:{}", v)); c.nontrivial = true; }
+                Compiled::ParseErr(m) => { c.impl_violation = Some(format!("generated program does not parse: {}", m)); c.sig = Some("generator-parse-error".into()); }
+            }
+        }
+        Ok(q) => {
+            let usrc = print_prog(&q);
+            c.show = format!("{}\n--- unrolled ---\n{}", src, usrc);
+            let un = compile(&usrc);
+            match (orig, un) {
+                (Compiled::Ok(a), Compiled::Ok(b)) => {
+                    let (sa, sb) = (crate::pre_sx::normalise_str(&sx::model(&a)), crate::pre_sx::normalise_str(&sx::model(&b)));
+                    c.nontrivial = true;
+                    c.tags.push(format!("constraints:{}", a.constraints().len().min(9)));
+                    if sa != sb {
+                        c.impl_violation = Some(format!("expansion differs from the hand-unrolled text at Model level:\n  expanded: {}\n  unrolled: {}", sa, sb));
+                        c.sig = Some("model-differs".into());
+                    } else {
+                        let (la, lb) = (lin2(a), lin2(b));
+                        let (same, ta, tb) = match (&la, &lb) {
+                            (Lin::Ok(x), Lin::Ok(y)) => (lin_close(x, y), format!("(ok {})", sx::lin_model(x)), format!("(ok {})", sx::lin_model(y))),
+                            (Lin::Other(x), Lin::Other(y)) => (x == y, x.clone(), y.clone()),
+                            (Lin::Ok(x), Lin::Other(y)) => (false, format!("(ok {})", sx::lin_model(x)), y.clone()),
+                            (Lin::Other(x), Lin::Ok(y)) => (false, x.clone(), format!("(ok {})", sx::lin_model(y))),
+                        };
+                        c.tags.push(if ta.starts_with("(ok") { "linearized".into() } else { format!("lin:{}", &ta[..ta.len().min(30)]) });
+                        if ta.starts_with("(panic") { c.impl_violation = Some(format!("linearizer panics: {}", ta)); c.sig = Some("panic-linearize".into()); }
+                        else if !same {
+                            c.impl_violation = Some(format!("linearized models differ:\n  expanded: {}\n  unrolled: {}", ta, tb));
+                            c.sig = Some("linear-model-differs".into());
+                        }
+                        c.imp = ta;
+                    }
+                }
+                (Compiled::Panic(m), _) | (_, Compiled::Panic(m)) => { c.impl_violation = Some(format!("panic: {}", m)); c.sig = Some("panic".into()); }
+                (Compiled::ParseErr(m), _) => { c.impl_violation = Some(format!("generated program does not parse: {}", m)); c.sig = Some("generator-parse-error".into()); }
+                (_, Compiled::ParseErr(m)) => { c.impl_violation = Some(format!("unrolled program does not parse: {}", m)); c.sig = Some("unroller-parse-error".into()); }
+                (Compiled::TransErr(a), Compiled::TransErr(b)) => { c.tags.push(format!("both-error:{}/{}", a, b)); }
+                (Compiled::Ok(_), Compiled::TransErr(b)) => { c.impl_violation = Some(format!("program compiles but its hand-unrolled text fails with {}", b)); c.sig = Some(format!("only-unrolled-fails:{}", b)); }
+                (Compiled::TransErr(a), Compiled::Ok(_)) => { c.impl_violation = Some(format!("program fails with {} but its hand-unrolled text compiles", a)); c.sig = Some(format!("only-expanded-fails:{}", a)); }
+            }
+        }
+    }
+    c
+}
+
+// ------------------------------------------------------------------ hand-written seeds
+fn seeds() -> Vec<(&'static str, Prog)> {
+    let mut v = vec![];
+    let decl = |base: &str, its: Vec<It>, ty: DomT| Decl { vars: vec![VarName::Cv(base.into(), its.iter().map(|i| Ix::Id(i.vars[0].clone())).collect())], ty, iters: its };
+    let data = |xs: &[i64]| E::Lit(V::Arr(xs.iter().map(|x| V::Int(*x)).collect()));
+    // index flattening x_1_23 vs x_12_3
+    v.push(("flatten-1-23", Prog { sense: "min".into(), obj: int(1),
+        cons: vec![Cons { name: None, lhs: bin(Op::Add, cv("x", vec![Ix::Id("i".into()), Ix::Id("j".into())]), cv("x", vec![Ix::Id("j".into()), Ix::Id("i".into())])), rel: Some(("<=".into(), int(1))),
+            iters: vec![it1("i", data(&[1, 12])), it1("j", data(&[23, 3]))] }],
+        consts: vec![], decls: vec![decl("x", vec![it1("a", data(&[1, 12, 23, 3])), it1("b", data(&[1, 12, 23, 3]))], DomT::Boolean)] }));
+    // off-by-one range ends
+    for (lo, hi, inc) in [(0, 0, false), (0, 0, true), (2, 1, true), (-2, 1, false), (-2, -2, true), (3, 5, true)] {
+        v.push(("range-ends", Prog { sense: "min".into(), obj: E::Scp("sum".into(), vec![it1("i", range(int(lo), int(hi), inc))], Box::new(bin(Op::Mul, id("i"), cv("x", vec![Ix::Id("i".into())])))),
+            cons: vec![Cons { name: Some(VarName::Cv("c".into(), vec![Ix::Id("i".into())])), lhs: cv("x", vec![Ix::Id("i".into())]), rel: Some((">=".into(), id("i"))), iters: vec![it1("i", range(int(lo), int(hi), inc))] },
+                       Cons { name: None, lhs: id("z"), rel: Some((">=".into(), int(0))), iters: vec![] }],
+            consts: vec![], decls: vec![decl("x", vec![it1("a", range(int(-3), int(6), true))], DomT::Real(None)), Decl { vars: vec![VarName::Simple("z".into())], ty: DomT::Real(None), iters: vec![] }] }));
+    }
+    // every scoped aggregate over 0, 1, 2, 3 elements
+    for kind in ["sum", "prod", "avg", "min", "max"] {
+        for n in 0..4 {
+            let body = if kind == "prod" { bin(Op::Add, id("i"), int(1)) } else { bin(Op::Mul, bin(Op::Add, id("i"), int(1)), cv("x", vec![Ix::Id("i".into())])) };
+            let agg = E::Scp(kind.into(), vec![it1("i", range(int(0), int(n), false))], Box::new(body));
+            let lhs = if kind == "prod" { bin(Op::Mul, agg, id("z")) } else { agg };
+            v.push(("scoped-sizes", Prog { sense: "min".into(), obj: int(1),
+                cons: vec![Cons { name: None, lhs, rel: Some(("<=".into(), int(7))), iters: vec![] }], consts: vec![],
+                decls: vec![decl("x", vec![it1("a", range(int(0), int(4), false))], DomT::Real(Some((int(0), int(9))))), Decl { vars: vec![VarName::Simple("z".into())], ty: DomT::Real(None), iters: vec![] }] }));
+        }
+    }
+    for kind in ["all", "any", "xor"] {
+        for n in 0..4 {
+            let agg = E::Scp(kind.into(), vec![it1("i", range(int(0), int(n), false))], Box::new(cv("b", vec![Ix::Id("i".into())])));
+            v.push(("scoped-logic-sizes", Prog { sense: "solve".into(), obj: E::Lit(V::Bool(true)),
+                cons: vec![Cons { name: None, lhs: agg, rel: None, iters: vec![] }], consts: vec![],
+                decls: vec![decl("b", vec![it1("a", range(int(0), int(4), false))], DomT::Boolean)] }));
+        }
+    }
+    // block forms
+    for (kind, n) in [("avg", 1), ("avg", 3), ("min", 2), ("max", 3), ("xor", 3), ("all", 2), ("any", 3), ("abs", 1)] {
+        let logic = matches!(kind, "xor" | "all" | "any");
+        let es: Vec<E> = (0..n).map(|i| cv(if logic { "b" } else { "x" }, vec![Ix::Lit(i)])).collect();
+        let blk = E::Blk(kind.into(), es);
+        v.push(("blocks", Prog { sense: "min".into(), obj: int(1),
+            cons: vec![Cons { name: None, lhs: blk, rel: if logic { None } else { Some(("<=".into(), int(3))) }, iters: vec![] }], consts: vec![],
+            decls: vec![decl("x", vec![it1("a", range(int(0), int(4), false))], DomT::Real(Some((int(0), int(9))))), decl("b", vec![it1("a", range(int(0), int(4), false))], DomT::Boolean)] }));
+    }
+    // scope shadowing: same name twice must be rejected
+    v.push(("shadowing", Prog { sense: "min".into(), obj: int(1),
+        cons: vec![Cons { name: None, lhs: E::Scp("sum".into(), vec![it1("i", range(int(0), int(2), false)), it1("i", range(int(0), int(2), false))], Box::new(cv("x", vec![Ix::Id("i".into())]))), rel: Some(("<=".into(), int(1))), iters: vec![] }],
+        consts: vec![], decls: vec![decl("x", vec![it1("a", range(int(0), int(2), false))], DomT::Boolean)] }));
+    v.push(("shadowing-const", Prog { sense: "min".into(), obj: int(1),
+        cons: vec![Cons { name: None, lhs: cv("x", vec![Ix::Id("i".into())]), rel: Some(("<=".into(), int(1))), iters: vec![it1("i", range(int(0), int(2), false))] }],
+        consts: vec![("i".into(), int(1))], decls: vec![decl("x", vec![it1("a", range(int(0), int(2), false))], DomT::Boolean)] }));
+    // sibling scopes may reuse a name
+    v.push(("sibling-scopes", Prog { sense: "min".into(), obj: int(1),
+        cons: vec![Cons { name: None, lhs: bin(Op::Add, E::Scp("sum".into(), vec![it1("i", range(int(0), int(2), false))], Box::new(cv("x", vec![Ix::Id("i".into())]))),
+                E::Scp("sum".into(), vec![it1("i", range(int(1), int(3), false))], Box::new(cv("x", vec![Ix::Id("i".into())])))), rel: Some(("<=".into(), int(1))), iters: vec![] }],
+        consts: vec![], decls: vec![decl("x", vec![it1("a", range(int(0), int(3), false))], DomT::Boolean)] }));
+    // out-of-range access must be rejected
+    v.push(("out-of-range", Prog { sense: "min".into(), obj: int(1),
+        cons: vec![Cons { name: None, lhs: bin(Op::Mul, E::Acc("A".into(), vec![id("i")]), id("z")), rel: Some(("<=".into(), int(1))), iters: vec![it1("i", range(int(0), int(3), true))] }],
+        consts: vec![("A".into(), data(&[4, 5, 6]))], decls: vec![Decl { vars: vec![VarName::Simple("z".into())], ty: DomT::Real(None), iters: vec![] }] }));
+    // string / float / negative indexes
+    v.push(("odd-indexes", Prog { sense: "min".into(), obj: int(1),
+        cons: vec![Cons { name: None, lhs: bin(Op::Add, cv("x", vec![Ix::Id("s".into())]), cv("y", vec![Ix::Ex(bin(Op::Sub, id("i"), int(2)))])), rel: Some(("<=".into(), int(1))),
+            iters: vec![it1("s", E::Lit(V::Arr(vec![V::Str("a".into()), V::Str("b_c".into()), V::Str("d e".into())]))), it1("i", E::Lit(V::Arr(vec![V::Num(0.5), V::Num(2.0), V::Num(3.25)])))] }],
+        consts: vec![], decls: vec![
+            decl("x", vec![it1("q", E::Lit(V::Arr(vec![V::Str("a".into()), V::Str("b_c".into()), V::Str("d e".into())])))], DomT::Boolean),
+            Decl { vars: vec![VarName::Cv("y".into(), vec![Ix::Ex(bin(Op::Sub, id("q"), int(2)))])], ty: DomT::Boolean, iters: vec![it1("q", E::Lit(V::Arr(vec![V::Num(0.5), V::Num(2.0), V::Num(3.25)])))] }] }));
+    v
+}
+
+pub fn generate(seed: u64, n: usize, thorough: bool, _corpus: Option<&str>) -> Vec<Case> {
+    let mut r = Rng::new(crate::pre_gen::spread_seed(seed));
+    let mut cases = vec![];
+    for (tag, p) in seeds() { cases.push(check_program(&p, vec![format!("seed:{}", tag)], "seeds")); }
+    for i in 0..n {
+        let graphs = i % 3 != 0;
+        let logic = i % 4 == 1;
+        let mut rr = r.fork();
+        let mut g = ProgGen::new(&mut rr, GenCfg { graphs, logic, errors: false });
+        let p = g.program();
+        let tags = g.tags.clone();
+        cases.push(check_program(&p, tags, if graphs { "random+graphs" } else { "random" }));
+    }
+    cases.extend(crate::pre_expand::model_cases(&mut r, if thorough { 4000 } else { 400 }));
+    cases.extend(crate::pre_expand::fragment_cases(&mut r, if thorough { 6000 } else { 500 }));
+    let _ = Exp::Number(0.0);
+    cases
+}
